@@ -94,7 +94,7 @@ let strat = function
 let hir (x : Model.hirspec) =
   Printf.sprintf "(hir (schemas %s) (ops %s) (servers %s) (security %s) (docs %s))"
     (sp (List.map (fun (k, r) -> "(" ^ h k ^ " " ^ record r ^ ")") x.Model.h_schemas))
-    (sp (List.map hop x.Model.h_ops))
+    (sp (List.sort compare (List.map hop x.Model.h_ops)))   (* sorted: the order of the operation table is not an observation *)
     (sp (List.map (fun (k, v) -> "(" ^ h k ^ " " ^ h v ^ ")") x.Model.h_servers))
     (sp (List.map strat x.Model.h_security))
     (po h x.Model.h_docs_url)
